@@ -10,6 +10,9 @@ one of the finitely many paths through one month of HybridLoad.process_month_loa
   R06.3  energy identity: sum_k load_k * (hour_k - hour_{k-1}) == monthly_cl[i] - monthly_hl[i]
          with hour_0 = the previous month's end, as a rational identity in the monthly totals,
          peaks, durations, peak days and the month length
+  R06.4  premise of the no-pulse paths: month_duration subtracts both peak durations whether or not a pulse is
+         placed, so on paths without a pulse the identity needs that direction's duration to be the 1e-6 h sentinel;
+         find_peak_durations is analysed path by path under monthly_peak[i] == 0 for what it stores
   R06.5  month slicing: split_loads_by_month takes consecutive windows [p : p + 24*days] and
          advances p by the same amount; totals are sums of the window
 
@@ -45,12 +48,12 @@ ASSUMPTIONS = [
     "last_month_hour(i) - last_month_hour(i-1) = 24 * monthdays(i) and first_month_hour(i) = last_month_hour(i-1) + 1 "
     "(calendar helpers; their tables are checked under C08)",
     "monthly peaks are maxima of non-negative hourly values, so 'not (peak > 0)' means peak = 0",
-    "a direction without load has sentinel duration 1e-6 h, idealised as 0",
+    "the sentinel duration 1e-6 h of a direction without load is idealised as 0 (that it IS the sentinel is checked: R06.4)",
     "peak durations are positive (an absent pulse carries the sentinel 1e-6 h): paths that need a negative duration are infeasible",
 ]
 
 
-def _energy(p: hc.MonthPath, ma: hc.MonthAnalysis):
+def _energy(p: hc.MonthPath, ma: hc.MonthAnalysis, idealise: bool = True):
     A = ma.atoms
     fmh, lmh = hc.calendar_atoms(ma)
     P, MD = Rat.atom("PREV_END"), Rat.atom("MD")
@@ -67,16 +70,18 @@ def _energy(p: hc.MonthPath, ma: hc.MonthAnalysis):
     mapping[next(iter(lmh.atoms()))] = P + MD * Rat.const(24)
     if p.has_cl is False:
         mapping[next(iter(A["PCL"].atoms()))] = Rat.const(0)
-        mapping[next(iter(A["DCL"].atoms()))] = Rat.const(0)
+        if idealise:
+            mapping[next(iter(A["DCL"].atoms()))] = Rat.const(0)
     if p.has_hl is False:
         mapping[next(iter(A["PHL"].atoms()))] = Rat.const(0)
-        mapping[next(iter(A["DHL"].atoms()))] = Rat.const(0)
+        if idealise:
+            mapping[next(iter(A["DHL"].atoms()))] = Rat.const(0)
     if p.day_rel == "=" and p.ipf is not False:
         mapping[next(iter(A["KCL"].atoms()))] = A["KHL"]
     e = Rat.const(0)
     prev = P
     for l, h in zip(p.loads, p.hours):
-        l2, h2 = l.subs(mapping), h.subs(mapping)
+        l2, h2 = hc.resolve_ite(l, p.state).subs(mapping), hc.resolve_ite(h, p.state).subs(mapping)
         e = e + l2 * (h2 - prev)
         prev = h2
     target = A["CL"] - A["HL"]
@@ -119,6 +124,7 @@ def check(prog: Program, tier: str) -> Result:
 
     # ---- per path
     seen = set()
+    needs_sentinel = {}
     n_clamped = 0
     n_double = 0
     for p in ma.paths:
@@ -158,6 +164,14 @@ def check(prog: Program, tier: str) -> Result:
         e, target, mapping = _energy(p, ma)
         diff = e - target
         ok = diff.is_zero()
+        if ok and (p.has_cl is False or p.has_hl is False):
+            # the identity was reached by taking the duration of the absent pulse as 0: either it holds exactly as well,
+            # or the sentinel premise (R06.4) must be established for that direction
+            e_x, target_x, _ = _energy(p, ma, idealise=False)
+            if not (e_x - target_x).is_zero():
+                for tag, absent in (("cl", p.has_cl is False), ("hl", p.has_hl is False)):
+                    if absent:
+                        needs_sentinel.setdefault(tag, (sig, where))
         res.ob("R06.3", f"energy identity on path [{sig}]", ok, where)
         res.sample({"path": sig, "pairs": [f"{l.key()[:90]} @ {h.key()[:90]}" for l, h in zip(p.loads, p.hours)][:5],
                     "energy_minus_target": diff.key()[:200]})
@@ -171,6 +185,19 @@ def check(prog: Program, tier: str) -> Result:
                           f"month energy is not conserved on the path [{sig}]: integral - (monthly_cl - monthly_hl) = {diff.key()[:300]}",
                           pairs=[f"{l.key()} @ {h.key()}" for l, h in zip(p.loads, p.hours)],
                           path=hc.describe_trail(p.state))
+    # ---- R06.4 sentinel premise
+    if needs_sentinel:
+        prem = hc.sentinel_premise(prog)
+        res.analysed("ghedesigner.ground_loads.HybridLoad.find_peak_durations")
+        for tag, (sig, where) in sorted(needs_sentinel.items()):
+            okp, wherep, detail = prem[tag]
+            d = "rejection" if tag == "cl" else "extraction"
+            res.ob("R06.4", f"a month without {d} gets the sentinel duration (<= {hc.SENTINEL_MAX} h) in find_peak_durations, as the no-pulse paths assume (first: [{sig}]): {detail[:120]}", okp, wherep)
+            if not okp:
+                res.violation("R06.4", f"sentinel|{tag}", wherep, "ghedesigner.ground_loads.HybridLoad.find_peak_durations",
+                              f"process_month_loads subtracts monthly_peak_{tag}_duration[i] from the hours of the month's average also when no {d} pulse is placed "
+                              f"(path [{sig}]), so the month's energy is conserved only if that duration is the sentinel; but {detail}")
+    res.count("no_pulse_paths_relying_on_sentinel", len(needs_sentinel))
     res.count("clamped_paths_included", n_clamped)
     res.count("double_clamp_paths_excluded", n_double)
     res.floor("paths", 40)
@@ -320,8 +347,18 @@ def _check_split(prog: Program, res: Result):
                           f"{tgt} is not the sum over the month's window of {arr}")
 
 
-G = "ghedesigner.ground_loads"
+G = GL = "ghedesigner.ground_loads"
 VARIANTS = [
+    Variant("duration simulation guarded by the two-day maximum only (phantom duration of an absent pulse)", "break",
+            [(GL, "            if self.monthly_peak_cl[i] != 0.0 and current_month_peak_cl != 0.0:", "            if current_month_peak_cl != 0.0:")], "R06.4"),
+    Variant("phantom durations allowed, but month_duration subtracts only the durations of placed pulses", "benign",
+            [(GL, "            if self.monthly_peak_cl[i] != 0.0 and current_month_peak_cl != 0.0:", "            if current_month_peak_cl != 0.0:"),
+             (GL, "            if self.monthly_peak_hl[i] != 0.0 and current_month_peak_hl != 0.0:", "            if current_month_peak_hl != 0.0:"),
+             (GL, """                    - self.monthly_peak_cl_duration[i]
+                    - self.monthly_peak_hl_duration[i]
+                )""", """                    - (self.monthly_peak_cl_duration[i] if self.monthly_peak_cl[i] > 0 else 0.0)
+                    - (self.monthly_peak_hl_duration[i] if self.monthly_peak_hl[i] > 0 else 0.0)
+                )""")]),
     Variant("drop the closing pair's hour in the cooling-first branch", "break",
             [(G, """                # rest of month
                 last_avg_hour = last_month_hour(i, self.years)
